@@ -1668,6 +1668,133 @@ fn burst_commit_case(case_seed: u64, rep: &mut Report) {
     rep.eval(case_seed ^ 0xC0B, committed > 0);
 }
 
+/// PREPARE of a second transaction T2 on keys of T1, handled by the participant at the same moment
+/// as COMMIT(T1) (T1 writes many keys with fat values so that applying takes a while; T2 asks for
+/// the keys T1 writes last and keeps asking until it is granted or the commit has returned).
+/// Afterwards, sequentially: T2 is aborted (another shard voted no). Clauses: an aborted
+/// transaction leaves the shard's data as it was, and no write of the committed T1 is discarded —
+/// every key of T1 must still hold T1's value.
+fn burst_other_prepare_case(case_seed: u64, rep: &mut Report) {
+    let mut rng = Rng::new(case_seed);
+    let p = Arc::new(TxParticipant::new(TensorStore::new()));
+    let rounds = 120u64;
+    let mut committed = 0u64;
+    let mut granted_during = 0u64;
+    let mut granted_after = 0u64;
+    let mut refused = 0u64;
+    let mut done = 0u64;
+    for it in 0..rounds {
+        done += 1;
+        let t1 = case_seed.wrapping_mul(8192).wrapping_add(2 * it + 1);
+        let t2 = t1 + 1;
+        let nkeys = 40 + rng.below(260);
+        let pad = [64usize, 512, 2048][rng.below(3)];
+        let ops: Vec<Transaction> = (0..nkeys)
+            .map(|j| {
+                let mut data = format!("t1:s0:{}:{}:", it, j).into_bytes();
+                data.resize(data.len() + pad, b'.');
+                Transaction::Put { key: format!("o{}k{}", it, j), data }
+            })
+            .collect();
+        // half of the rounds: the keys exist before T1 (so T2's undo image is a value, not a delete)
+        let preexisting = rng.bool();
+        if preexisting {
+            for j in 0..nkeys {
+                let mut d = TensorData::new();
+                d.set("data", tensor_store::TensorValue::Scalar(tensor_store::ScalarValue::Bytes(format!("init:{}:{}", it, j).into_bytes())));
+                let _ = p.store().put(format!("o{}k{}", it, j), d);
+            }
+        }
+        if !matches!(p.prepare(prepare_request(t1, &ops)), PrepareVote::Yes { .. }) {
+            continue;
+        }
+        // T2 writes 1-3 of the keys T1 writes last (or, one round in four, first)
+        let n2 = 1 + rng.below(3).min(nkeys - 1);
+        let from_end = !rng.chance(1, 4);
+        let ops2: Vec<Transaction> = (0..n2)
+            .map(|j| {
+                let idx = if from_end { nkeys - 1 - j } else { j };
+                Transaction::Put { key: format!("o{}k{}", it, idx), data: format!("t2:s0:{}:{}", it, idx).into_bytes() }
+            })
+            .collect();
+        let bar = Arc::new(std::sync::Barrier::new(2));
+        let ok = std::sync::atomic::AtomicBool::new(false);
+        let commit_done = std::sync::atomic::AtomicBool::new(false);
+        let t2_state = std::sync::atomic::AtomicU8::new(0); // 0 refused, 1 granted while the commit ran, 2 granted after it returned
+        std::thread::scope(|sc| {
+            {
+                let (p, bar, ok, commit_done) = (p.clone(), bar.clone(), &ok, &commit_done);
+                sc.spawn(move || {
+                    bar.wait();
+                    if p.commit(t1).success {
+                        ok.store(true, std::sync::atomic::Ordering::SeqCst);
+                    }
+                    commit_done.store(true, std::sync::atomic::Ordering::SeqCst);
+                });
+            }
+            {
+                let (p, bar, ops2, commit_done, t2_state) = (p.clone(), bar.clone(), &ops2, &commit_done, &t2_state);
+                sc.spawn(move || {
+                    bar.wait();
+                    loop {
+                        let finished = commit_done.load(std::sync::atomic::Ordering::SeqCst);
+                        if matches!(p.prepare(prepare_request(t2, ops2)), PrepareVote::Yes { .. }) {
+                            t2_state.store(if finished { 2 } else { 1 }, std::sync::atomic::Ordering::SeqCst);
+                            break;
+                        }
+                        if finished {
+                            break;
+                        }
+                        std::hint::spin_loop();
+                    }
+                });
+            }
+        });
+        // quiescent from here on
+        let st = t2_state.load(std::sync::atomic::Ordering::SeqCst);
+        match st {
+            1 => granted_during += 1,
+            2 => granted_after += 1,
+            _ => refused += 1,
+        }
+        // T2 is aborted whatever it was answered (ABORT for an unknown transaction is harmless)
+        let _ = p.abort(t2);
+        if !ok.load(std::sync::atomic::Ordering::SeqCst) {
+            let _ = p.abort(t1);
+            continue;
+        }
+        committed += 1;
+        let mut lost = Vec::new();
+        for (j, op) in ops.iter().enumerate() {
+            if let Transaction::Put { key, data } = op {
+                let have = p.store().get(key).ok().map(|d| tag_of(&d));
+                if have.as_deref() != Some(&String::from_utf8_lossy(data)) {
+                    lost.push((j, have));
+                }
+            }
+        }
+        if !lost.is_empty() {
+            rep.violation(
+                "threaded:committed-write-lost:other-tx-prepared-during-commit-then-aborted",
+                format!(
+                    "round {}: COMMIT(T1) ({} writes of {} bytes, keys {}) and PREPARE(T2) on {} of T1's {} keys were handled concurrently by one participant (T2 was {}); the commit was acknowledged, T2 was then aborted; {} of T1's keys no longer hold T1's value (first: #{} holds {:?})",
+                    it, nkeys, pad, if preexisting { "existed before" } else { "new" }, n2, if from_end { "last" } else { "first" },
+                    match st { 1 => "granted while the commit ran", 2 => "granted after the commit returned", _ => "refused" },
+                    lost.len(), lost[0].0, lost[0].1.as_ref().map(|s| s.chars().take(40).collect::<String>())
+                ),
+                json!({"mode": "burst-other-prepare", "case_seed": case_seed}),
+            );
+            break;
+        }
+    }
+    rep.count("threaded:other-prepare-vs-commit-rounds", done);
+    rep.count("threaded:other-prepare-vs-commit-committed", committed);
+    rep.count("threaded:other-prepare-granted-while-commit-ran", granted_during);
+    rep.count("threaded:other-prepare-granted-after-commit", granted_after);
+    rep.count("threaded:other-prepare-refused", refused);
+    rep.eval(case_seed ^ 0xC0C, committed > 0);
+}
+
 /// `c03 witness-race`: two duplicates of PREPARE(T1) and an ABORT(T1) handled at the same time by
 /// one participant, repeated until the participant is left with a prepared entry for T1 whose key
 /// lock is gone; then the consequence is played out sequentially. No oracle involved.
@@ -1786,6 +1913,13 @@ fn main() {
                     break;
                 }
             }
+        } else if rp["mode"].as_str() == Some("burst-other-prepare") {
+            for _ in 0..50 {
+                burst_other_prepare_case(seed, &mut total);
+                if total.violations_total > 0 {
+                    break;
+                }
+            }
         } else if rp["mode"].as_str() == Some("burst") {
             for _ in 0..50 {
                 burst_case(seed, &mut total);
@@ -1832,6 +1966,9 @@ fn main() {
             let n = args.extra_u64("burst-commit-cases", args.by_tier(12, 200));
             let rep = par_cases((args.threads / 4).max(1), args.seed ^ 0x7C, n, args.budget(10, 60), |_i, s, r| burst_commit_case(s, r));
             total.merge(rep);
+            let n = args.extra_u64("burst-other-prepare-cases", args.by_tier(12, 200));
+            let rep = par_cases((args.threads / 4).max(1), args.seed ^ 0x7D, n, args.budget(10, 60), |_i, s, r| burst_other_prepare_case(s, r));
+            total.merge(rep);
         }
     }
 
@@ -1866,7 +2003,7 @@ fn main() {
             ]);
         }
         if mode == "both" || mode == "threaded" {
-            floors.extend([("threaded_cases", 40u64), ("threaded:decided:commit", 15), ("threaded:decided:abort", 20), ("threaded:same-tx-burst-rounds-with-later-commit", 100), ("threaded:prepare-vs-commit-bursts-committed", 200), ("threaded:prepare-vs-commit-leftover-entries-swept", 20)]);
+            floors.extend([("threaded_cases", 40u64), ("threaded:decided:commit", 15), ("threaded:decided:abort", 20), ("threaded:same-tx-burst-rounds-with-later-commit", 100), ("threaded:prepare-vs-commit-bursts-committed", 200), ("threaded:prepare-vs-commit-leftover-entries-swept", 20), ("threaded:other-prepare-vs-commit-committed", 200)]);
         }
     }
     let meta = Meta {
